@@ -52,6 +52,9 @@ func Tokens(src string) (toks []Tok) {
 var typeNames = []string{"int", "string", "float64", "bool", "uint8", "int64", "error", "any", "[]int", "[]string", "map[string]int", "func()", "*int", "chan int", "struct{}", "bigint"}
 var binOps = []string{"+", "-", "*", "/", "%", "&&", "||", "==", "!=", "<", "<=", ">", ">=", "&", "|", "^", "<<", ">>", "&^", "<-", "=>", ":", "?", "!"}
 
+// NestDepths are the nesting depths used by the "nest" mutation.
+var NestDepths = []int{20, 100, 400}
+
 // Mutation kinds (near-miss: designed to hit one compile-error class each).
 var MutKinds = []string{
 	"ident-swap", "ident-undefined", "type-swap", "lit-swap", "drop-arg", "add-arg", "drop-line", "dup-line",
@@ -266,7 +269,7 @@ func Mutate(r *vh.Rand, src string, kind string, other string) (out string, ok b
 		if !ok1 {
 			return src, false
 		}
-		depth := []int{50, 300, 1500}[r.Intn(3)]
+		depth := NestDepths[r.Intn(len(NestDepths))]
 		var o, c string
 		switch r.Intn(4) {
 		case 0:
